@@ -157,6 +157,23 @@ macro_rules! timer_none {
   }};
 }
 
+macro_rules! status_real {
+  ($b:expr, $op:expr, $B:ty) => {{
+    let (o, _status) = $b.complete_status();
+    let r: $B = o.box_it();
+    r
+  }};
+}
+// StatusOp is not Clone
+macro_rules! status_none {
+  ($b:expr, $op:expr, $B:ty) => {{
+    let _ = $b;
+    let r: $B = panic!("harness: {} is not available in the cloneable builder", $op.name());
+    #[allow(unreachable_code)]
+    r
+  }};
+}
+
 macro_rules! throttle_time_real {
   ($b:expr, $d:expr, $e:expr, $s:expr) => {
     $b.throttle_time(ms($d), edge($e), $s)
@@ -178,7 +195,7 @@ macro_rules! gen_builder {
     merge=$merge:ident, zip=$zip:ident, combine=$combine:ident, wlf=$wlf:ident,
     take_until=$take_until:ident, skip_until=$skip_until:ident, sample=$sample:ident,
     delay=$delay:ident, delay_at=$delay_at:ident, observe_on=$observe_on:ident,
-    finalize=$finalize:ident, share=$share:ident, flat=$flat:ident, tt=$tt:ident, timer=$timer:ident,
+    finalize=$finalize:ident, share=$share:ident, flat=$flat:ident, tt=$tt:ident, timer=$timer:ident, status=$status:ident,
     stash=$Stash:ty
   ) => {
     pub mod $modname {
@@ -441,6 +458,7 @@ macro_rules! gen_builder {
           Op::Share => b.$share().box_it(),
           Op::Spy(id) => Spy { src: b, id: *id, log }.box_it(),
           Op::Deaf => Deaf { src: b }.box_it(),
+          Op::Status => $status!(b, op, $B),
           Op::BoxIt => b.box_it(),
         }
       }
@@ -482,7 +500,7 @@ gen_builder!(
   merge=merge, zip=zip, combine=combine_latest, wlf=with_latest_from,
   take_until=take_until, skip_until=skip_until, sample=sample,
   delay=delay, delay_at=delay_at, observe_on=observe_on,
-  finalize=finalize, share=share, flat=flat_local, tt=throttle_time_real, timer=timer_real,
+  finalize=finalize, share=share, flat=flat_local, tt=throttle_time_real, timer=timer_real, status=status_real,
   stash=StashL
 );
 
@@ -492,7 +510,7 @@ gen_builder!(
   merge=merge_threads, zip=zip_threads, combine=combine_latest_threads, wlf=with_latest_from_threads,
   take_until=take_until_threads, skip_until=skip_until_threads, sample=sample_threads,
   delay=delay_threads, delay_at=delay_at_threads, observe_on=observe_on_threads,
-  finalize=finalize_threads, share=share_threads, flat=flat_threads, tt=throttle_time_real, timer=timer_real,
+  finalize=finalize_threads, share=share_threads, flat=flat_threads, tt=throttle_time_real, timer=timer_real, status=status_real,
   stash=StashT
 );
 
@@ -502,7 +520,7 @@ gen_builder!(
   merge=merge, zip=zip, combine=combine_latest, wlf=with_latest_from,
   take_until=take_until, skip_until=skip_until, sample=sample,
   delay=delay, delay_at=delay_at, observe_on=observe_on,
-  finalize=finalize, share=share, flat=flat_none, tt=throttle_time_closure, timer=timer_none,
+  finalize=finalize, share=share, flat=flat_none, tt=throttle_time_closure, timer=timer_none, status=status_none,
   stash=StashL
 );
 
@@ -513,6 +531,6 @@ gen_builder!(
   merge=merge, zip=zip, combine=combine_latest, wlf=with_latest_from,
   take_until=take_until, skip_until=skip_until, sample=sample,
   delay=delay, delay_at=delay_at, observe_on=observe_on,
-  finalize=finalize, share=share, flat=flat_local, tt=throttle_time_real, timer=timer_real,
+  finalize=finalize, share=share, flat=flat_local, tt=throttle_time_real, timer=timer_real, status=status_real,
   stash=StashL
 );
